@@ -81,3 +81,35 @@ def natives(rp, builder):   # noqa: F811
     if "names" in (rp.get("modules") or []):
         n.update(_names_natives())
     return n
+
+
+def _replay_from_exception(rp):
+    """Bespoke harness: the model describes an exception object through its class's __module__ / __qualname__ / __name__; a real
+    exception class with exactly those attributes is created, MementoException.from_exception is run on an instance, and the recorded
+    name is compared with language::module:qualified-name (the clause's meaning)."""
+    from twosigma.memento.exception import MementoException
+    m = rp.get("counter_model") or {}
+    cls_attrs = (((m.get("e") or {}).get("attrs") or {}).get("__class__") or {}).get("attrs") or {}
+    mod, qual, name = cls_attrs.get("__module__"), cls_attrs.get("__qualname__"), cls_attrs.get("__name__")
+    if not isinstance(mod, str) or not isinstance(qual, str):
+        return {"reproduced": None, "detail": "the counter-model does not give the exception class's __module__ / __qualname__"}
+    if not isinstance(name, str) or not name:
+        name = qual.rsplit(".", 1)[-1] or "E"
+    if ":" in mod or ":" in qual:
+        return {"reproduced": None, "detail": "model violates the precondition (':' in module or qualified name)"}
+    cls = type(name if name.isidentifier() else "E", (Exception,), {})
+    cls.__module__, cls.__qualname__ = mod, qual
+    try:
+        cls.__name__ = name
+    except Exception:
+        pass
+    try:
+        me = MementoException.from_exception(cls("boom"))
+    except Exception as e:
+        return {"reproduced": rp.get("kind") == "exception-freedom", "detail": "from_exception raised %r" % e, "inputs": "class module=%r qualname=%r name=%r" % (mod, qual, name)}
+    want = "python::%s:%s" % (mod, qual)
+    ok = me.exception_name == want
+    return {"reproduced": not ok, "detail": "recorded name %r, required %r" % (me.exception_name, want), "inputs": "exception class with __module__=%r __qualname__=%r __name__=%r" % (mod, qual, name)}
+
+
+BUILDERS["exception:MementoException.from_exception"] = _replay_from_exception
